@@ -85,6 +85,7 @@ def main(argv=None):
     by_backend: dict = {}
     n_obl = n_dis = 0
     bounded_info = []
+    undecided_obs = []
     for r in results:
         if r.status == "engine-error":
             faults.append(f"{r.unit}: {r.detail}")
@@ -153,6 +154,32 @@ def main(argv=None):
                 if counted:
                     n_obl += 1
                 undecided.append(f"{ob.name}: undecided ({ob.meta.get('tried')})")
+                undecided_obs.append(ob)
+
+    # an obligation the solvers could not decide is never a violation by itself; but the property's bounded native replay of that unit
+    # is tried once per unit, and a failing input found on the real code IS reported (labelled bounded)
+    tried_units = set()
+    for ob in undecided_obs:
+        unit = ob.name.split("#", 1)[0]
+        if unit in tried_units:
+            continue
+        tried_units.add(unit)
+        nn = norm_ob_name(ob.name)
+        for prefix, fn in prop.replayers.items():
+            if nn.startswith(prefix) or fnmatch.fnmatch(nn, prefix):
+                try:
+                    hit = fn(index, ob, seed)
+                except Exception as e:
+                    hit = {"found": False, "error": f"{type(e).__name__}: {e}"}
+                if hit and hit.get("found"):
+                    from .state import Obligation
+                    import z3 as _z3
+                    vb = Obligation(f"{unit}#bounded-replay-after-undecided", [], _z3.BoolVal(False), "bounded", None, unit,
+                                    {"detail": f"undecided: {ob.name}", "replay": hit, "note": "obligation undecided deductively; bounded native replay found a failing input"})
+                    vb.verdict, vb.backend, vb.model = "refuted", "bounded-execution", {"witness": hit.get("input")}
+                    vb.meta["prefound"] = hit
+                    violations.append(vb)
+                break
 
     # known findings: one line per listed finding that still fails; residual obligations must hold
     seen_known = {}
